@@ -643,14 +643,14 @@ Proof.
         - rewrite replace_nth_length. lia.
         - intros j Hj. rewrite Esg in Hj. cbn in Hj. lia. }
       assert (tview st1 = Rest) as Ev1.
-      { unfold tview, st1. cbn. rewrite (view_cons si _ _ [] o); [|apply nth_error_replace_eq; lia|exact Eo].
-        cbn. unfold Rest. apply view_replace_before. lia. }
+      { unfold tview, st1. cbn [tf_seg tf_iters tf_offs]. rewrite (view_cons si _ _ [] o); [|apply nth_error_replace_eq; lia|exact Eo].
+        cbn [map app]. unfold Rest. apply view_replace_before. lia. }
       destruct (tfr_step_next st1 last (Some t) Hinv1) as [st' [G1 [G2 G3]]].
-      rewrite Ev1 in G1, G2, G3. cbn [map app]. exists st'. auto.
+      rewrite Ev1 in G1, G2, G3. cbn [map app]. rewrite Eo. exists st'. auto.
     + (* found in segment si *)
       rewrite (upd_nth_Some (fun _ => Some it') _ _ _ it' Ei eq_refl).
       eexists. split; [reflexivity|]. cbn [map app hd_res tl]. split.
-      * unfold tview. cbn. rewrite (view_cons si _ _ it' o); [|apply nth_error_replace_eq; lia|exact Eo].
+      * unfold tview. cbn [tf_seg tf_iters tf_offs]. rewrite (view_cons si _ _ it' o); [|apply nth_error_replace_eq; lia|exact Eo].
         rewrite view_replace_before by lia. reflexivity.
       * constructor; cbn.
         -- eapply (wf_replace_suffix _ _ _ it it' (pre ++ [x])); eauto. rewrite <- app_assoc. exact Esplit.
